@@ -1,6 +1,6 @@
 (* C05 — the active protocol is the newest supported one not newer than reported. *)
 From Coq Require Import List NArith ZArith Bool String.
-From AMS Require Import Models GatewayFacts GatewayInv GatewaySteps VersionFacts.
+From AMS Require Import Models Codec GatewayFacts GatewayInv GatewaySteps VersionFacts GatewayVer.
 Import ListNotations.
 
 (* selection, for every release string of the dotted-numeric grammar with at
@@ -80,3 +80,21 @@ Example C05_examples :
   = [Some 4; Some 4; Some 3; Some 2; Some 1; Some 0; Some 0; Some 0; Some 4; Some 3; Some 4; Some 4]%nat.
 Proof. exact select_examples. Qed.
 Print Assumptions C05_examples.
+
+(* only version reports move the reported version / the active protocol: for EVERY line, state,
+   oracle and fault stream, a line that is neither the gateway's own presentation (0;255;0;...)
+   nor an internal / stream message of type 2 (I_VERSION in every protocol: a computed fact)
+   leaves both exactly as they were — whatever error it ends in *)
+Theorem C05_only_version_reports_change_it :
+  forall bat vlt now line s,
+    (forall m, decode (proto_of (s_w s)) line = DecOk m ->
+       ~ (m_child m = 255 /\ m_node m = 0 /\ m_cmd m = 0)%Z
+       /\ (m_cmd m = 3 \/ m_cmd m = 4 -> m_type m <> 2)%Z) ->
+    (w_pv (s_w (snd (listen_step bat vlt now line s))), w_proto (s_w (snd (listen_step bat vlt now line s))))
+    = (w_pv (s_w s), w_proto (s_w s)).
+Proof.
+  intros bat vlt now line s H. apply (vs_listen_step bat vlt now line s).
+  intros m E. destruct (H m E) as [H1 H2]. split; [exact H1|].
+  intros K. apply type_not_2_not_version. exact (H2 K).
+Qed.
+Print Assumptions C05_only_version_reports_change_it.
